@@ -2,7 +2,7 @@ SPECIFICATION TSpec
 CONSTANTS
   Kinds = {"data", "map"}
   FanIds = {"a", "b", "c"}
-  Values = {"v1", "v2", "v3"}
+  Values = {"v1", "v2", "v3", "vf"}
 CHECK_DEADLOCK FALSE
 INVARIANTS
   Report
